@@ -1009,7 +1009,7 @@ Proof.
       destruct count as [|c cs]; [cbn [last]; lia|].
       assert (Hin : In (last (c :: cs) 0) (c :: cs)) by apply last_In_cons.
       rewrite Forall_forall in Hc. apply Hc. exact Hin.
-    + exists 1. lia.
+    + exists 1. cbn [snd]. lia.
 Qed.
 
 Lemma flatten_req_mult g start count stride :
